@@ -409,6 +409,11 @@ def _slice_region(n):
     if rg[0] != "agg" or rg[1][0] != "adt":
         return None
     kind = rg[1][1]
+    # &s.split_at(pos).1[1..]: the tail starts with the one-byte char found at pos
+    if kind == "std::ops::RangeFrom" and len(rg[2]) == 1 and rg[2][0] == ("const", 1) and s_[0] == "field" and s_[2] == "1" and s_[1][0] == "call" and s_[1][1] == STR + "split_at" and len(s_[1][2]) == 2:
+        fc = _find_call(s_[1][2][1])
+        if fc is not None and fc[2] == s_[1][2][0] and ord(fc[1]) < 128:
+            return (fc[0] + "SplitR", fc[1], _region(s_[1][2][0]))
     if kind == "std::ops::RangeTo" and len(rg[2]) == 1:
         fc = _find_call(rg[2][0])
         if fc is not None and fc[2] == s_:
@@ -466,6 +471,11 @@ def _region(n):
         return ("?", nshow(n))
     if k == "field":
         base = n[1]
+        # (head, tail) = s.split_at(pos) with pos the position of a char found in s: head = s[..pos]
+        if n[2] == "0" and base[0] == "call" and base[1] == STR + "split_at" and len(base[2]) == 2:
+            fc = _find_call(base[2][1])
+            if fc is not None and fc[2] == base[2][0]:
+                return (fc[0] + "SplitL", fc[1], _region(base[2][0]))
         # element of an enumerate()d split: (index, item)
         if base[0] == "some" and n[2] == "1" and base[1][0] == "call" and base[1][1].startswith("<std::iter::Enumerate<") and base[1][1].endswith("::next"):
             src = iter_source(base[1], through=("std::iter::Iterator::enumerate",))
@@ -704,15 +714,30 @@ def decoder_role(facts, key):
     # the same as an explicit match: Ok(d) => Ok(d), Err(_) => Err(E)
     calls = [(bb, callee_name(tt["callee"])) for bb, tt in b.calls()]
     dec = [bb for bb, pth in calls if pth == "percent_encoding::PercentDecode::<'a>::decode_utf8"]
-    if len(dec) == 1 and sorted(pth for _, pth in calls) == sorted(["percent_encoding::percent_decode_str", "percent_encoding::PercentDecode::<'a>::decode_utf8"]):
+    DEC_CALLS = ["percent_encoding::percent_decode_str", "percent_encoding::PercentDecode::<'a>::decode_utf8"]
+    SCAN_CALLS = (STR + "as_bytes", SLICE_CONTAINS, STR_CONTAINS)
+    if len(dec) == 1 and sorted(pth for _, pth in calls if pth not in SCAN_CALLS) == sorted(DEC_CALLS):
         dt = norm(b.call_term(dec[0]))
         src = dt[2][0]
         if src[0] == "call" and src[1] == "percent_encoding::percent_decode_str" and src[2] == (("arg", 1),):
             rets = [(bb, classify_return(n)) for (bb, n) in returns(b)]
+            # a fast path for text without '%': percent_decode_str(s).decode_utf8() of such an s is Ok(Cow::Borrowed(s))
+            # (percent-encoding: `PercentDecode::if_any` finds no escape -> the input bytes borrowed; they are a valid &str)
+            NOPCT = ("contains", "%", ("Input", 1), False)
+            PCT = ("contains", "%", ("Input", 1), True)
+            fast = [(bb, c) for bb, c in rets if c == ("ok", ("agg", ("adt", "std::borrow::Cow", "Borrowed", ("0",)), (("arg", 1),)))]
+            if len(fast) == 1 and len(rets) == 3 and [canon_atom(a) for _, a in atoms_at(b, fast[0][0])] == [NOPCT]:
+                rets = [r for r in rets if r[0] != fast[0][0]]
+                drop_pct = True
+            else:
+                drop_pct = False
             if len(rets) == 2 and sorted(c[0] for _, c in rets) == ["err", "ok"]:
                 (be, ce), (bo, co) = sorted(rets, key=lambda r: r[1][0])
                 ae = [canon_atom(a) for _, a in atoms_at(b, be)]
                 ao = [canon_atom(a) for _, a in atoms_at(b, bo)]
+                if drop_pct:
+                    ae = [a for a in ae if a != PCT]
+                    ao = [a for a in ao if a != PCT]
                 okp = co[1] == ("ok", dt)
                 if okp and len(ae) == 1 and ae[0][0] == "callres" and ae[0][1] == dt[1] and ae[0][-1] in ("Err", "Err?") and len(ao) == 1 and ao[0][0] == "callres" and ao[0][-1] in ("Ok", "Ok?"):
                     return {"kind": "strict", "error": error_const(ce[1])}
@@ -929,8 +954,74 @@ def const_chars_t(t):
     return boolsum.const_chars(t)
 
 
+CONTEXT = {"facts": None, "summ": None}   # the program the atoms come from (set by the runner), for predicates that are closures
+
+
+def set_context(facts):
+    if CONTEXT["facts"] is not facts:
+        CONTEXT["facts"] = facts
+        CONTEXT["summ"] = None
+
+
+def _only_char(pred_key, quant, pos):
+    """`x.chars()/bytes().all(|c| c == K)` (or `!any(|c| c != K)`): x consists of K only == x.trim_matches(K).is_empty().
+    Returns K when the predicate (a closure / fn of the analysed program) has exactly that meaning, else None."""
+    facts = CONTEXT["facts"]
+    if facts is None:
+        return None
+    key = pred_key[1] if isinstance(pred_key, tuple) and pred_key[0] == "bytes" else pred_key
+    if key not in facts.bodies:
+        return None
+    try:
+        if CONTEXT["summ"] is None:
+            CONTEXT["summ"] = boolsum.Summarizer(facts)
+        cs = boolsum.charset(boolsum.pred_formula(facts, CONTEXT["summ"], pred_key), facts)
+    except AnchorError:
+        return None
+    if quant == "any":
+        cs = boolsum.universe() & ~cs
+        pos = not pos
+    if cs and cs & (cs - 1) == 0 and cs.bit_length() - 1 < 128:
+        return chr(cs.bit_length() - 1), pos
+    return None
+
+
+def _any_of_few(pred_key):
+    """`x.chars()/bytes().any(P)` with P true for a handful of ASCII chars only  ==  x.contains([those chars])"""
+    facts = CONTEXT["facts"]
+    if facts is None:
+        return None
+    key = pred_key[1] if isinstance(pred_key, tuple) and pred_key[0] == "bytes" else pred_key
+    if key not in facts.bodies:
+        return None
+    try:
+        if CONTEXT["summ"] is None:
+            CONTEXT["summ"] = boolsum.Summarizer(facts)
+        cs = boolsum.charset(boolsum.pred_formula(facts, CONTEXT["summ"], pred_key), facts)
+    except AnchorError:
+        return None
+    if cs and cs < (1 << 128) and bin(cs).count("1") <= 8:
+        return tuple(i for i in range(128) if cs >> i & 1)
+    return None
+
+
 def canon_atom(a):
     """Canonical, region-based description of a guard atom (see DESIGN 2.2 item 3)."""
+    c = _canon_atom(a)
+    if c[0] in ("all", "any") and len(c) == 4:
+        oc = _only_char(c[2], c[0], c[3])
+        if oc is not None:
+            return ("empty", ("Trim", oc[0], c[1]), oc[1])
+        if c[0] == "any":
+            few = _any_of_few(c[2])
+            if few is not None and len(few) > 1:
+                return ("contains-any", few, c[1], c[3])
+            if few is not None and len(few) == 1:
+                return ("contains", chr(few[0]), c[1], c[3])
+    return c
+
+
+def _canon_atom(a):
     k = a[0]
     if k == "is":
         x, v = a[1], a[2]
@@ -942,6 +1033,9 @@ def canon_atom(a):
         sc = _split_call(x)
         if sc is not None:
             return ("found", sc[0] + "Split", sc[1], _region(sc[2]), v == "Some")
+        if x[0] == "call" and x[1] in (STR + "find", STR + "rfind") and len(x[2]) == 2 and cchar(x[2][1]) is None and const_chars_t(x[2][1]) is not None and v in ("Some", "None"):
+            # s.find(&[c1, c2, ..][..]) is Some  ==  s.contains(&[c1, c2, ..][..])
+            return ("contains-any", tuple(const_chars_t(x[2][1])), _value(x[2][0]), v == "Some")
         fc = _find_call(("some", x))
         if fc is not None and v in ("Some", "None"):
             return ("found", fc[0] + "Split", fc[1], _region(fc[2]), v == "Some")
@@ -962,6 +1056,13 @@ def canon_atom(a):
             return ("contains-any", tuple(const_chars_t(args[1])), _value(args[0]), pos)
         if p == SLICE_CONTAINS and const_strs(args[0]) is not None:
             return ("inlist", tuple(const_strs(args[0])), _value(args[1]), pos)
+        if p == SLICE_CONTAINS and len(args) == 2 and args[0][0] == "call" and args[0][1] == STR + "as_bytes":
+            # s.as_bytes().contains(&b'c') for an ASCII c  ==  s.contains('c')   (an ASCII byte never occurs inside a
+            # multi-byte UTF-8 sequence)
+            bv = strip(args[1])
+            bv = bv[3] if bv[0] == "named" else bv[1] if bv[0] == "const" else None
+            if isinstance(bv, int) and not isinstance(bv, bool) and 0 <= bv < 128:
+                return ("contains", chr(bv), _value(args[0][2][0]), pos)
         if (p.endswith("<impl std::cmp::PartialEq for str>::eq") or p.endswith("<impl std::cmp::PartialEq for str>::ne")
                 or p in ("std::cmp::impls::<impl std::cmp::PartialEq<&B> for &A>::eq", "std::cmp::impls::<impl std::cmp::PartialEq<&B> for &A>::ne")
                 or ("std::cmp::PartialEq<" in p and (p.endswith("::eq") or p.endswith("::ne")) and any(w in p for w in ("str>", "&str", "std::string::String", "std::borrow::Cow<", "SmartString")))) and len(args) == 2:
